@@ -19,6 +19,7 @@ diamond-shaped multiple-inheritance scheme.
 """
 
 import collections
+import copy
 import functools
 import itertools
 import logging
@@ -517,7 +518,9 @@ class _StatefulSingleProcessDataLoaderIter(_StatefulBaseDataLoaderIter):
             _DATASET_STATE: dataset_state,
             _ITERATOR_FINISHED: self._finished,
         }
-        return state_dict
+        # The dataset / sampler may hand out their live internals; a checkpoint must not change
+        # when they move on (with workers the state crosses a process boundary and is a copy already)
+        return copy.deepcopy(state_dict)
 
     def load_state_dict(self, state_dict):
         assert (
